@@ -241,7 +241,7 @@ where
     F: FnOnce(&mut World) -> AnyResult<cw_multi_test::AppResponse>,
 {
     log_clear();
-    let r = std::panic::catch_unwind(std::panic::AssertUnwindSafe(|| f(w)));
+    let r = guarded(|| f(w));
     let log = log_take();
     match r {
         Ok(Ok(resp)) => CallOut { ok: true, panic: false, err: String::new(), log, data: resp.data },
@@ -264,8 +264,23 @@ pub fn short_err(e: &str) -> String {
     one
 }
 
+thread_local! {
+    pub static IN_CALL: std::cell::Cell<bool> = std::cell::Cell::new(false);
+}
+/// panics inside the code under test are data (recorded in the trace); panics of the harness
+/// itself are printed
 pub fn silence_panics() {
-    std::panic::set_hook(Box::new(|_| {}));
+    std::panic::set_hook(Box::new(|info| {
+        if !IN_CALL.with(|c| c.get()) {
+            eprintln!("harness panic: {info}");
+        }
+    }));
+}
+pub fn guarded<T>(f: impl FnOnce() -> T) -> std::thread::Result<T> {
+    IN_CALL.with(|c| c.set(true));
+    let r = std::panic::catch_unwind(std::panic::AssertUnwindSafe(f));
+    IN_CALL.with(|c| c.set(false));
+    r
 }
 
 // -------------------------------------------------------------------------------------- scale
